@@ -2,6 +2,7 @@ package checks
 
 import (
 	"fmt"
+	"os"
 	"strings"
 
 	"verif/mc/synt"
@@ -18,8 +19,10 @@ import (
 // parameters, the here-document reader c) and ends with `echo rc=$?`; the
 // hole-free statements are additionally taken bare (alone in the file).
 
-const c03Prelude = "x=1 y=ab z='c d' e= n=x a=(i j 'k l'); set -- p1 'p 2'\n" +
-	"c() { while IFS= read -r l || [ -n \"$l\" ]; do printf '[%s]\\n' \"$l\"; done; }\n"
+const c03Prelude = "x=1 y=ab z='c d' e= n=x a=(i j 'k l')\nset -- p1 'p 2'\n" +
+	// the reader is defined through eval so that the prelude prints the same
+	// under every configuration (it would otherwise multiply the distinct texts)
+	"eval 'c() { while IFS= read -r l || [ -n \"$l\" ]; do printf \"[%s]\\n\" \"$l\"; done; }'\n"
 
 var c03Prods = map[string][]string{
 	"S": {
@@ -110,6 +113,23 @@ var c03Prods = map[string][]string{
 
 var c03Defaults = map[string]string{"S": "echo·s", "W": "w", "A": "1", "T": "-n·a"}
 
+// c03Probes are the atoms that every context sees in the reduced (quick)
+// space; the core contexts see every atom.
+var c03Probes = map[string][]string{
+	"S": {"echo·a", "false", "(¤exit·3↵)¶echo·$?", "((·x·==·1·))", "{¤echo·a¶echo·b·>&2¶}·2>/dev/null", "c·<<E⟦body $x $(echo cs) `echo bq` \\$x $((x+1))\nE\n⟧", "c·<<E·|·c⟦body\nE\n⟧",
+		"!·true", "echo·a·#·c0", "for·i·in·1·2·3¶do¤[·$i·=·2·]·&&·continue¶echo·$i¶done", "case·$y·in¤ab)¤;;¤*)¤echo·no·;;¤esac", "exit·3", "x=7·y=8", "echo·a·>f¶read·r·<f¶echo·$r"},
+	"W": {"w", "'s  q'", "$x", "${x}y", "\"${a[@]}\"", "${e:-d  e}", "$(echo·a)", "`echo \\`echo n\\``", "$((x+1))", "{a,b}", "a\\ b", "$( (echo a) )", "a\\\nb", "\"a\nb\"", "!", "\\#c", "if", "}"},
+	"A": {"1", "x·-·-1", "x·+·++x", "-·-x", "!·x", "(x+1)*2", "x=5", "x++", "$x+1", "x?1:2"},
+	"T": {"-n·$x", "!·-n·$e", "(·-n·$e·||·-n·$x·)·&&·-n·$y", "$y·=~·(a|b)", "$y·==·a*", "-n·$x·&&¤-z·$e"},
+}
+
+// c03QuickCore are the contexts whose holes see every atom in the reduced
+// space.
+var c03QuickCore = map[string]bool{
+	"{¤{S}¶}": true, "(¤{S}↵)": true, "echo·$(¤{S}↵)": true, "if¤{S}¶then¤{S}¶fi": true, "{S}·&&·{S}": true, "{S}·|·c": true, "f()·{¤{S}¶}¶f": true,
+	"echo·{W}": true, "v={W}¶echo·\"$v\"": true, "echo·$(({A}))¶echo·$x·${a[0]}": true, "[[·{T}·]]·&&·echo·T·||·echo·F": true,
+}
+
 // c03CoreS are the statement contexts through which depth-2 nesting goes.
 var c03CoreS = map[string]bool{
 	"{¤{S}¶}": true, "(¤{S}↵)": true, "(¤(¤{S}↵)↵)": true, "echo·$(¤{S}↵)": true, "echo·`{S}`": true, "if¤{S}¶then¤{S}¶fi": true,
@@ -143,7 +163,13 @@ func c03Holes(t string) []struct {
 // template one hole at a time ranges over all expansions one level shallower
 // while the other holes hold their default atom. Below the top level, depth
 // >= 2 only nests through the core contexts.
-func c03Templates(nt string, depth int) []string {
+func c03Templates(nt string, depth int, probes bool) []string {
+	probeSet := map[string]bool{}
+	for _, l := range c03Probes {
+		for _, a := range l {
+			probeSet[a] = true
+		}
+	}
 	memo := map[string][]string{}
 	var gen func(nt string, d int, top bool) []string
 	gen = func(nt string, d int, top bool) []string {
@@ -173,6 +199,9 @@ func c03Templates(nt string, depth int) []string {
 			}
 			for hi := range hs {
 				for _, sub := range gen(hs[hi].nt, d-1, false) {
+					if probes && top && !c03QuickCore[t] && !probeSet[sub] {
+						continue // reduced space: non-core contexts only see the probe atoms
+					}
 					var sb strings.Builder
 					last := 0
 					for hj, h := range hs {
@@ -196,13 +225,14 @@ func c03Templates(nt string, depth int) []string {
 }
 
 type c03Bounds struct {
-	depth       int // nesting depth of default-layout programs
+	probes      bool // reduced space (see c03Probes)
+	depth       int  // nesting depth of default-layout programs
 	layoutDepth int // single-gap layout deviations for templates up to this depth
 	bareDepth   int // templates up to this depth are also taken without prelude/epilogue
 }
 
 func c03GetBounds(c *vc.Ctx) c03Bounds {
-	return vc.Pick(c, c03Bounds{depth: 1, layoutDepth: 0, bareDepth: 0}, c03Bounds{depth: 2, layoutDepth: 1, bareDepth: 1})
+	return vc.Pick(c, c03Bounds{probes: true, depth: 1, layoutDepth: 0, bareDepth: 0}, c03Bounds{depth: 1, layoutDepth: 1, bareDepth: 0})
 }
 
 func c03GenDescribe(c *vc.Ctx) string {
@@ -211,15 +241,36 @@ func c03GenDescribe(c *vc.Ctx) string {
 	for _, p := range c03Prods {
 		n += len(p)
 	}
-	return fmt.Sprintf("%d templates over builtins only; every expansion to nesting depth %d (one hole explored at a time, depth 2 only through %d core contexts) in default layout wrapped in a fixed prelude and `echo rc=$?`, every single-gap layout deviation (double space, tab, escaped newline; newline, blank line, trailing comment, comment line, `;`+newline) of the depth<=%d expansions, and the depth<=%d expansions alone in the file with their layout deviations", n, b.depth, len(c03CoreS), b.layoutDepth, b.bareDepth)
+	space := "every atom in every hole"
+	if b.probes {
+		space = fmt.Sprintf("every atom in the holes of the %d core contexts, the %d probe atoms in the other holes", len(c03QuickCore), len(c03Probes["S"])+len(c03Probes["W"])+len(c03Probes["A"])+len(c03Probes["T"]))
+	}
+	return fmt.Sprintf("%d templates over builtins only; every expansion to nesting depth %d, one hole explored at a time (%s), in default layout wrapped in a fixed prelude and `echo rc=$?`; every single-gap layout deviation (double space, tab, escaped newline; newline, blank line, trailing comment, comment line, `;`+newline) of the reduced-space expansions of depth<=%d; the depth<=%d expansions also alone in the file", n, b.depth, space, b.layoutDepth, b.bareDepth)
 }
 
 func c03Wrap(t string) string { return c03Prelude + t + "¶echo·rc=$?" }
 
 // c03Programs enumerates all programs: corpus first, then G_exec.
 func c03Programs(c *vc.Ctx, emit func(c03Prog)) {
-	for _, src := range synt.InterpCorpus() {
-		emit(c03Prog{Src: src, Origin: "corpus", Full: true})
+	for nt, l := range c03Probes {
+		for _, a := range l {
+			found := false
+			for _, t := range c03Prods[nt] {
+				found = found || t == a
+			}
+			if !found {
+				panic("c03: probe atom is not a production: " + a)
+			}
+		}
+	}
+	only := os.Getenv("VERIF_C03_ONLY") // development aid: "corpus" or "gexec"
+	if only != "gexec" {
+		for _, src := range synt.InterpCorpus() {
+			emit(c03Prog{Src: src, Origin: "corpus", Full: !c.Quick()})
+		}
+	}
+	if only == "corpus" {
+		return
 	}
 	b := c03GetBounds(c)
 	layouts := func(t string, wrapped bool, full bool) {
@@ -235,30 +286,30 @@ func c03Programs(c *vc.Ctx, emit func(c03Prog)) {
 		}
 	}
 	layoutSet := map[string]bool{}
-	for _, t := range c03Templates("S", b.layoutDepth) {
+	for _, t := range c03Templates("S", b.layoutDepth, true) {
 		layoutSet[t] = true
 	}
 	bareSet := map[string]bool{}
-	for _, t := range c03Templates("S", b.bareDepth) {
+	for _, t := range c03Templates("S", b.bareDepth, b.probes) {
 		bareSet[t] = true
 	}
 	done := map[string]bool{}
 	for d := 0; d <= b.depth; d++ {
-		for _, t := range c03Templates("S", d) {
+		for _, t := range c03Templates("S", d, b.probes) {
 			if done[t] {
 				continue
 			}
 			done[t] = true
 			text, _ := synt.Render(c03Wrap(t), -1, 0)
-			emit(c03Prog{Src: text, Origin: "gexec", Tmpl: t, Full: d <= 1})
+			emit(c03Prog{Src: text, Origin: "gexec", Tmpl: t, Full: !c.Quick()})
 			if bareSet[t] {
 				text, _ := synt.Render(t, -1, 0)
-				emit(c03Prog{Src: text, Origin: "gexec", Tmpl: t, Full: true})
+				emit(c03Prog{Src: text, Origin: "gexec", Tmpl: t, Full: !c.Quick()})
 			}
 		}
 	}
 	for d := 0; d <= b.layoutDepth; d++ {
-		for _, t := range c03Templates("S", d) {
+		for _, t := range c03Templates("S", d, true) {
 			if !layoutSet[t] || done[t+"\x00L"] {
 				continue
 			}
